@@ -189,6 +189,7 @@ type Result struct {
 	DoubleClose  int   // close of an already closed channel (a panic in Go)
 	SendOnClosed int   // send on a closed channel (a panic in Go)
 	TimersLeft   int   // active timers at the end
+	TickersLeft  int   // ... of which periodic (a ticker nobody stopped keeps firing for ever)
 	Now          int64 // virtual nanoseconds since execution start
 	Diverged     string
 	StepTrace    []string
@@ -999,6 +1000,9 @@ func Run(o Options, prefix []int, body func()) *Result {
 	for i := 0; i < x.ntimers; i++ {
 		if x.timers[i].active && !x.timers[i].harness {
 			x.res.TimersLeft++
+			if x.timers[i].period > 0 {
+				x.res.TickersLeft++
+			}
 		}
 	}
 	x.res.Choices = x.choices
